@@ -1,8 +1,16 @@
 package props
 
 import (
+	"fmt"
+	"os"
+	"path/filepath"
+	"strings"
+
 	"verif/checker/internal/core"
 	"verif/checker/internal/engb"
+	"verif/checker/internal/fam"
+	"verif/checker/internal/gen"
+	"verif/checker/internal/skel"
 )
 
 func init() {
@@ -38,6 +46,143 @@ func C10(c *core.Ctx) {
 	emit(c, a.Cycle())
 	emit(c, a.ParentPath())
 	emit(c, a.RefCacheScope())
+	// Engine A: the same oracles that decide the inline forms decide the referenced forms ("replacing a reference by an inline copy of its
+	// target does not change which documents are accepted"): value families at the $defs / definitions positions, a definition referenced twice
+	// (one shared type), and the cross-file forms.
+	skel.DepsDir = filepath.Join(c.VerifDir, "checker", "testdata", "emitdeps")
+	rules := ruleSet("A-REJ", "A-REQ", "A-NOEXTRA", "A-NILG", "A-DEF", "A-TYP", "A-SHARE")
+	cfg := gen.DefaultConfig()
+	n := 0
+	for _, mb := range broadMembers(c.Tier, cfg) {
+		if !strings.Contains(mb.name, " def-") && !strings.Contains(mb.name, "behind a definition") && !strings.Contains(mb.name, "referenced") {
+			continue
+		}
+		n++
+		if c.Tier != "thorough" && n%3 != 0 {
+			continue
+		}
+		inline := inlineIssues(c, mb)
+		runMember(c, mb, rules, 64, func(w *fam.World, fm *fam.FileModel) []fam.Issue {
+			return notIn(inline, append(checkRoot(w, fm), w.TypIssues(c.Prog.Repo)...))
+		})
+	}
+	for _, mb := range sharedRefMembers(cfg) {
+		inline := inlineIssues(c, mb)
+		runMember(c, mb, rules, 64, func(w *fam.World, fm *fam.FileModel) []fam.Issue {
+			out := notIn(inline, append(checkRoot(w, fm), w.TypIssues(c.Prog.Repo)...))
+			return append(out, sharedTypeIssues(w, fm)...)
+		})
+	}
+	c.Floor("families", c.Counts["members"], 30, "family members at reference positions")
+	ruleMulti(c, ruleSet("A-ROUTE", "A-XPKG", "A-TYP", "A-DEF", "A-REQ", "A-REJ", "A-NOEXTRA", "A-NILG"))
+}
+
+// inlineIssues runs the INLINE twin of a member (every reference replaced by a copy of its target) and returns the (rule, construct)
+// pairs of the issues found on it. C10 is about transparency: a defect of a value keyword that shows inline as well (byte-length
+// minLength, truncated fractional bounds, inner array levels) is decided under that keyword's own property, not here.
+func inlineIssues(c *core.Ctx, mb member) map[string]bool {
+	twin := mb.root.Clone()
+	var strip func(s *fam.Spec)
+	seen := map[*fam.Spec]bool{}
+	strip = func(s *fam.Spec) {
+		if s == nil || seen[s] {
+			return
+		}
+		seen[s] = true
+		s.Ref, s.RefFile, s.DefLabel, s.DefSameAs = "", "", "", ""
+		strip(s.Items)
+		for _, p := range s.Props {
+			strip(p.Spec)
+		}
+		for _, x := range s.AnyOf {
+			strip(x)
+		}
+		for _, x := range s.AllOf {
+			strip(x)
+		}
+	}
+	strip(twin)
+	out := map[string]bool{}
+	worlds, _ := fam.Run(c.Prog, mb.cfg, twin, 64, nil)
+	c.Counts["inline_twins"]++
+	for _, w := range worlds {
+		if w.Err != nil || w.GenErr != "" {
+			continue
+		}
+		fm := w.Models["out.go"]
+		if fm == nil {
+			continue
+		}
+		for _, is := range append(checkRoot(w, fm), w.TypIssues(c.Prog.Repo)...) {
+			out[twinKey(is)] = true
+		}
+	}
+	if os.Getenv("VCHECK_DEBUG") != "" && strings.Contains(mb.name, os.Getenv("VCHECK_DEBUG")) {
+		fmt.Printf("TWIN %s: %d worlds, keys %v\n", twin.String(), len(worlds), out)
+	}
+	return out
+}
+
+// twinKey identifies an issue across the two forms.
+func twinKey(is fam.Issue) string {
+	return is.Rule + "|" + is.Construct
+}
+
+func notIn(inline map[string]bool, issues []fam.Issue) []fam.Issue {
+	var out []fam.Issue
+	for _, is := range issues {
+		if !inline[twinKey(is)] {
+			out = append(out, is)
+		}
+	}
+	return out
+}
+
+// sharedRefMembers: one definition referenced from two properties (must yield ONE Go type used by both).
+func sharedRefMembers(cfg gen.Config) []member {
+	var out []member
+	for _, ref := range []string{"$defs", "definitions"} {
+		for _, kind := range []string{"object", "string", "integer", "array"} {
+			mk := func() *fam.Spec {
+				var s *fam.Spec
+				switch kind {
+				case "object":
+					s = objSpec(&fam.Prop{Label: "in", Spec: &fam.Spec{Kind: "string", Kw: []string{"minLength"}}, Required: true})
+				case "string":
+					s = &fam.Spec{Kind: "string", Kw: []string{"maxLength", "pattern"}}
+				case "integer":
+					s = &fam.Spec{Kind: "integer", Kw: []string{"minimum", "multipleOf"}}
+				default:
+					s = &fam.Spec{Kind: "array", Items: &fam.Spec{Kind: "string"}, Kw: []string{"minItems"}}
+				}
+				s.Ref, s.DefLabel = ref, "shared"
+				return s
+			}
+			shared := mk()
+			root := objSpec(&fam.Prop{Label: "p1", Spec: shared, Required: true}, &fam.Prop{Label: "p2", Spec: shared})
+			out = append(out, member{name: "one " + kind + " definition in " + ref + " referenced by two properties", cfg: cfg, root: root})
+		}
+	}
+	return out
+}
+
+// sharedTypeIssues: both referrers of the one definition have the same declared type.
+func sharedTypeIssues(w *fam.World, fm *fam.FileModel) []fam.Issue {
+	if len(w.Spec.Props) < 2 {
+		return nil
+	}
+	var ts []string
+	for _, p := range w.Spec.Props {
+		_, F := fm.FindField(p.Name, "json")
+		if F == nil {
+			return nil
+		}
+		ts = append(ts, strings.TrimPrefix(F.Type, "*"))
+	}
+	if ts[0] != ts[1] {
+		return []fam.Issue{{Rule: "A-SHARE", Construct: "two referrers of one definition get different Go types", Msg: fmt.Sprintf("p1 is %s, p2 is %s", ts[0], ts[1])}}
+	}
+	return nil
 }
 
 // C20 — each schema's code lands once, in the file and package mapped to its id.
@@ -50,7 +195,12 @@ func C20(c *core.Ctx) {
 		"B-XPKG: in generateReferencedType the branch between the unqualified and the package-qualified result compares the two outputs' Package.QualifiedName " +
 		"(not the outputs themselves), the qualified NamedType takes its package from the target's output and the import is added to the referrer's package. " +
 		"B-ROUTE:keys: the id list main builds the mappings from is appended to an initially empty slice (no phantom empty-id mapping). " +
-		"Not decided: main's mapping assembly beyond these, argument-order independence of the root-type-name check, building the emitted packages together."
+		"Multi-file families (Engine A): several in-memory schema files with cross-file references are generated in ONE abstract generator run, behind the module's own CachedLoader (the file system is replaced by " +
+		"an in-memory loader and 'path joined to the referring file's directory'), under routing configurations (two packages; one package in two output files; the single default output; plus an unrelated file; " +
+		"same-named definitions in two files; a reference cycle across files) and several argument orders: every reached schema's root type is declared exactly once, in the output file and package mapped to its id; " +
+		"a reference is package-qualified and imported iff the packages differ (A-XPKG); ALL emitted packages type-check together (A-TYP); the referenced definition is validated where it lands; and the " +
+		"normalised output of a file is the same for every argument order and with or without unrelated files (A-ORDER). " +
+		"Not decided: main's mapping assembly beyond the key-list rule; real file-system resolution."
 	a := engb.New(c.Prog)
 	emit(c, a.Route())
 	emit(c, a.CrossPackage("(*pkg/generator.schemaGenerator).generateReferencedType"))
@@ -66,4 +216,5 @@ func C20(c *core.Ctx) {
 	if !ok {
 		c.Fail("B-ROUTE:unique", "field outputs", "file names unique among outputs", "", "no proof that two outputs never share a file name: Sources() would concatenate them in map order and a same-file/different-package conflict could go unnoticed", nil)
 	}
+	ruleMulti(c, ruleSet("A-ROUTE", "A-XPKG", "A-TYP", "A-ORDER", "A-DEF", "A-REQ", "A-REJ", "A-NOEXTRA"))
 }
